@@ -39,6 +39,34 @@ theorem heating_heating_poll (c : Heating.Cfg) (s : Heating.St) (pool air : Opti
   unfold heatingHeatingPoll Heating.heatingPoll Heating.poolDone Heating.airStop
   grind [absHeating]
 
+/-! #### the daily schedule: what `__set_next_start`, `setpoint`, `start_hour` and `on_exit_heating` leave in `__next_start`
+(C16 "at most once per daily schedule unless the user changes setpoint or start hour" is proved on `Heating.exitHeating`,
+`setSetpoint`, `setStartHour`; here they are the values the regenerated methods compute, for every state and instant) -/
+
+theorem heating_set_next_start (s : Heating.St) (now : Int) :
+    heatingSetNextStartFinal s now = [Heating.nextDayStart now s.startHour] := by
+  unfold heatingSetNextStartFinal Heating.nextDayStart Heating.day Heating.hourUs; simp
+
+theorem heating_setpoint_schedule (s : Heating.St) (now v : Int) :
+    heatingSetpointFinal s now v = [(Heating.setSetpoint s now v).nextStart, (Heating.setSetpoint s now v).setpoint] := by
+  unfold heatingSetpointFinal Heating.setSetpoint Heating.day; split <;> simp_all <;> omega
+
+theorem heating_start_hour_schedule (s : Heating.St) (now v : Int) :
+    heatingStartHourFinal s now v = [(Heating.setStartHour s now v).nextStart, (Heating.setStartHour s now v).startHour] := by
+  unfold heatingStartHourFinal Heating.setStartHour Heating.nextDayStart Heating.day Heating.hourUs
+  simp only []
+  split <;> split <;> simp_all <;> omega
+
+theorem heating_exit_schedule (s : Heating.St) (now : Int) (allow : Bool) :
+    heatingExitFinal s now allow = [(Heating.exitHeating s now).nextStart] := by
+  unfold heatingExitFinal Heating.exitHeating Heating.nextDayStart Heating.day Heating.hourUs; split <;> simp <;> omega
+
+/-- the heat-pump valve is closed when `heating` is left, and Filtration is told to start the post-run delay only if it is (still)
+    in heating_running -/
+theorem heating_exit_effects (s : Heating.St) (now : Int) (allow : Bool) :
+    "valve heating off" ∈ heatingExit s now allow ∧ ("tell Filtration heating_delay" ∈ heatingExit s now allow ↔ allow = true) := by
+  cases allow <;> simp [heatingExit]
+
 /-- the temperatures the polls compare are the reader's values for the requested sensor, the pool sensor by default -/
 theorem heating_reads_the_reader : heatingReadTemperature = ["signature self, key='temperature_pool'", "return reader value of key"] := by decide
 
